@@ -1,7 +1,7 @@
 ---- MODULE MC_Storage ----
 EXTENDS Storage
-MCValsQ == {[ty |-> "S", id |-> 1], [ty |-> "Int", id |-> 7], [ty |-> "R", id |-> 3]}
+MCValsQ == {[ty |-> "S", id |-> 1], [ty |-> "Int", id |-> 7], [ty |-> "R", id |-> 3], [ty |-> "OptInt", id |-> 9]}
 MCTArgsQ == {"S", "I", "AnyStruct", "Int", "R", "AnyResource"}
-MCValsT == {[ty |-> "S", id |-> 1], [ty |-> "S2", id |-> 2], [ty |-> "Int", id |-> 7], [ty |-> "R", id |-> 3], [ty |-> "R2", id |-> 4]}
+MCValsT == {[ty |-> "S", id |-> 1], [ty |-> "S2", id |-> 2], [ty |-> "Int", id |-> 7], [ty |-> "R", id |-> 3], [ty |-> "R2", id |-> 4], [ty |-> "OptInt", id |-> 9]}
 MCTArgsT == {"S", "S2", "I", "AnyStruct", "Int", "R", "R2", "RI", "AnyResource"}
 ====
